@@ -11,23 +11,44 @@ set_option linter.unusedSimpArgs false
 namespace AioMySensors.PersistBodiesEq
 open AioMySensors Persist
 
-theorem clause_load0 : clause Gen.excPersistLoad 0 = [.FileNotFoundError] := rfl
-theorem clause_load1 : clause Gen.excPersistLoad 1 = [.OSError, .ValueError, .RecursionError] := rfl
-theorem clause_load2 : clause Gen.excPersistLoad 2 = [.AttributeError, .TypeError, .ValidationError] := rfl
+/-- What the clauses of the first `try` of `load`, as translated (any number of them, classes in any order), do with an
+exception of class `c` is what the persistence model does reading the generated table by position (clause 0: create the
+file; clause 1: `PersistenceReadError`; the extractor counts adjacent clauses with the same body as one).  Checked class
+by class. -/
+theorem firstTry_action (c : PyExn) :
+    ((GenPersist.loadClauses.find? fun cl => pyCaught c cl.1).map fun cl => cl.2) =
+      if pyCaught c (clause Gen.excPersistLoad 0) then some .saveAndReturn
+      else if pyCaught c (clause Gen.excPersistLoad 1) then some .raiseRead else none := by
+  cases c <;> decide
+
+/-- The classes of the second `try` of `load`, as translated, catch what the generated clause 2 catches. -/
+theorem secondTry_caught (c : PyExn) :
+    pyCaught c GenPersist.loadRestoreClasses = pyCaught c (clause Gen.excPersistLoad 2) := by
+  cases c <;> decide
+
 theorem clause_save0 : clause Gen.excPersistSave 0 = [.OSError] := rfl
 
 /-- `Persistence.load`, as translated: the two `try` statements with their handlers in source order. -/
 theorem load_eq (cur : PDict Int Node) (fs : FileState) : GenPersist.load cur fs = loadFile cur fs := by
   simp only [GenPersist.load, loadFile, LP.tryRead, LP.openReadParse, LP.catchRead, LP.loadEach, loadInto, mapRead,
-    clause_load0, clause_load1, clause_load2]
+    secondTry_caught]
   cases hr : readFile fs with
   | ok j =>
     cases hl : loadRaw cur j with
     | ok r => simp [hl]
-    | error c => cases hc : pyCaught c [.AttributeError, .TypeError, .ValidationError] <;> simp [hl, hc]
+    | error c => cases hc : pyCaught c (clause Gen.excPersistLoad 2) <;> simp [hl, hc]
   | error c =>
-    cases h0 : pyCaught c [.FileNotFoundError] <;> cases h1 : pyCaught c [.OSError, .ValueError, .RecursionError] <;>
-      simp [List.find?, h0, h1]
+    have ha := firstTry_action c
+    cases hf : GenPersist.loadClauses.find? (fun cl => pyCaught c cl.1) with
+    | none =>
+      rw [hf] at ha
+      cases h0 : pyCaught c (clause Gen.excPersistLoad 0) <;> cases h1 : pyCaught c (clause Gen.excPersistLoad 1) <;>
+        simp [h0, h1, hf] at ha ⊢
+    | some cl =>
+      obtain ⟨cls, act⟩ := cl
+      rw [hf] at ha
+      cases act <;> cases h0 : pyCaught c (clause Gen.excPersistLoad 0) <;>
+        cases h1 : pyCaught c (clause Gen.excPersistLoad 1) <;> simp [h0, h1, hf] at ha ⊢
 
 /-- The file operations of `Persistence.save`, as translated, are the sequence whose crash states C15 analyses. -/
 theorem saveOps_eq : GenPersist.saveOps = FileOps.saveOps := rfl
